@@ -57,6 +57,7 @@ type fnDump struct {
 	skipped  string
 	nOrigins int
 	nReturns int // number of Return instructions
+	vidOf    func(ssa.Value) int
 }
 
 // isRealBuiltin: the callee is a language builtin (the *ssa.Builtin value), whatever its name.
@@ -211,6 +212,7 @@ func dumpFunction(state *dataflow.AnalyzerState, fn *ssa.Function, id string, ui
 		}
 		return 0
 	}
+	d.vidOf = vid
 	var sb strings.Builder
 	fmt.Fprintf(&sb, "fn %s\n", id)
 	// instructions
